@@ -1,4 +1,6 @@
 """C10 - Peers and offers expire exactly at their deadline, never earlier (all three trackers)."""
+import socket
+import time
 from vlib import *
 from storage import *
 import udp_storage as U
@@ -21,6 +23,178 @@ def mutate_clean_time(evs):
                 m[i]["now"] = 0
                 return m, "cleaning time set to 0 at event %d although peers were removed" % i
     return None
+
+
+# ---------------------------------------------------------------------------
+# Expiry on RUNNING trackers: the workers' own time sampling and cleaning timers (Expiry_Trace.tla)
+
+MAX_AGE = 12          # seconds
+EARLY_MS = 2300       # whole-second truncation (1 s) + age of the worker's cached time sample (<= 1 s) + jitter
+LATE_MS = 3200        # truncation (1 s) + cleaning interval (1 s) + timer jitter on a loaded machine
+
+
+def e2e_expiry_one(ctx, kind, backend, run_id, out, errors):
+    import threading
+    from net import Tracker, free_port, udp_wait_ready, tcp_wait_ready, UdpClient, connect_req, announce_req, \
+        scrape_req, decode_reply, info_hash, peer_id
+    import udp_e2e
+    import http_e2e
+    import ws_e2e
+    try:
+        if kind == "udp":
+            port = free_port()
+            cfg = udp_e2e.udp_config(port, backend, mode="off", max_scrape=5)
+        elif kind == "http":
+            port = free_port(socket.SOCK_STREAM)
+            cfg = http_e2e.http_config(port, 1, 2, True, max_scrape=5)
+        else:
+            port = free_port(socket.SOCK_STREAM)
+            cfg = ws_e2e.ws_config(port, 1, 2)
+        cfg["cleaning"]["max_peer_age"] = MAX_AGE
+        cfg["cleaning"]["torrent_cleaning_interval"] = 1
+        t = Tracker(ctx, kind, cfg, "c10_e2e_%s_%s" % (kind, backend or "x"))
+        ev = [{"ev": "reset", "run": run_id, "tracker": kind, "backend": backend or "", "max_age_ms": MAX_AGE * 1000,
+               "early_ms": EARLY_MS, "late_ms": LATE_MS}]
+        conns = {}
+        try:
+            if kind == "udp":
+                udp_wait_ready(("127.0.0.1", port), tracker=t)
+            else:
+                tcp_wait_ready(("127.0.0.1", port), tracker=t)
+            t0 = time.monotonic()
+
+            def now_ms():
+                return int((time.monotonic() - t0) * 1000)
+
+            def conn_for(peer):
+                if peer not in conns:
+                    ip = {"A": "127.0.0.2", "B": "127.0.0.3", "obs": "127.0.0.4"}[peer]
+                    if kind == "udp":
+                        c = UdpClient(ip, ("127.0.0.1", port))
+                        c.send(connect_req(1))
+                        r = c.recv(3.0)
+                        if not r:
+                            raise ToolError("no connect reply from the UDP tracker")
+                        conns[peer] = (c, decode_reply(r[0], 4)["conn_id"])
+                    elif kind == "http":
+                        conns[peer] = (http_e2e.HttpConn(ip, ("127.0.0.1", port)), None)
+                    else:
+                        conns[peer] = (ws_e2e.WsClient(peer, ip, ("127.0.0.1", port)), None)
+                return conns[peer]
+
+            torrent = {"A": 1, "B": 2}
+
+            def announce(peer):
+                c, cid = conn_for(peer)
+                lo = now_ms()
+                if kind == "udp":
+                    c.send(announce_req(cid, 50, info_hash(torrent[peer]), peer_id(torrent[peer]), 1, "started", 7001))
+                    r = c.recv(3.0)
+                    ok = bool(r) and decode_reply(r[0], 4)["kind"] == "announce"
+                elif kind == "http":
+                    c.send_split(http_e2e.request_bytes(http_e2e.announce_path(torrent[peer], 7001)), [])
+                    o = c.read_reply()
+                    ok = o.get("outcome") == "reply" and o["reply"]["kind"] == "announce"
+                else:
+                    c.send_text(ws_e2e.announce_msg(torrent[peer], torrent[peer], "started", 1, [], []))
+                    got = ws_e2e.settle([c], 0.1, sender=c, max_wait=3.0)
+                    ok = any(ws_e2e.abstract_frame(m, n)["kind"] == "announce" for n, m in got)
+                ev.append({"ev": "announce", "peer": peer, "lo": lo, "hi": now_ms(), "answered": ok})
+
+            def observe():
+                c, cid = conn_for("obs")
+                lo = now_ms()
+                present = []
+                if kind == "udp":
+                    c.send(scrape_req(cid, 60, [info_hash(1), info_hash(2)]))
+                    r = c.recv(3.0)
+                    if not r:
+                        raise ToolError("no scrape reply from the UDP tracker")
+                    st = decode_reply(r[0], 4)["stats"]
+                    present = [p for p, s in zip(("A", "B"), st) if s[0] + s[1] > 0]
+                elif kind == "http":
+                    c.send_split(http_e2e.request_bytes(http_e2e.scrape_path([1, 2])), [])
+                    o = c.read_reply()
+                    if o.get("outcome") != "reply":
+                        raise ToolError("no scrape reply from the HTTP tracker: %s" % o)
+                    present = [{1: "A", 2: "B"}[f[0]] for f in o["reply"]["files"] if f[1] + f[2] > 0 and f[0] in (1, 2)]
+                else:
+                    c.send_text(ws_e2e.scrape_msg([1, 2]))
+                    got = ws_e2e.settle([c], 0.1, sender=c, max_wait=3.0)
+                    fr = [ws_e2e.abstract_frame(m, n) for n, m in got]
+                    fr = [f for f in fr if f["kind"] == "scrape"]
+                    if not fr:
+                        raise ToolError("no scrape reply from the WebTorrent tracker")
+                    present = [{1: "A", 2: "B"}[f[0]] for f in fr[0]["files"] if f[1] + f[2] > 0 and f[0] in (1, 2)]
+                ev.append({"ev": "obs", "lo": lo, "hi": now_ms(), "present": sorted(present)})
+
+            def until(sec):
+                d = sec - (time.monotonic() - t0)
+                if d > 0:
+                    time.sleep(d)
+
+            conn_for("obs")
+            announce("A")                   # deadline about 12
+            until(3.0)
+            observe()                       # A must be there
+            until(7.0)
+            announce("A")                   # fresh deadline about 19
+            announce("B")
+            until(15.2)
+            observe()                       # past A's first deadline: only the re-announce keeps it
+            until(23.5 + 1.5 * (load_factor() - 1.0))
+            observe()                       # everything gone
+            if not t.alive():
+                raise ToolError("tracker died: " + t.stderr()[-300:])
+        finally:
+            for c, _ in conns.values():
+                c.close()
+            t.stop()
+        out[run_id] = ev
+    except Exception as e:
+        errors.append("%s/%s: %r" % (kind, backend, e))
+
+
+def mutate_obs_absent(evs):
+    """Drop a peer from an observation in which it must still be present."""
+    for i, e in enumerate(evs):
+        if e.get("ev") == "obs" and "A" in e.get("present", []):
+            m = json.loads(json.dumps(evs))
+            m[i]["present"].remove("A")
+            return m, "peer A removed from the observation at event %d (before its deadline)" % i
+    return None
+
+
+def e2e_expiry(ctx):
+    import threading
+    jobs = [("udp", "mio", 5000), ("http", None, 5001), ("ws", None, 5002)]
+    if not ctx.quick():
+        jobs.append(("udp", "uring", 5003))
+    out, errors = {}, []
+    ths = [threading.Thread(target=e2e_expiry_one, args=(ctx, k, b, r, out, errors)) for k, b, r in jobs]
+    for th in ths:
+        th.start()
+    for th in ths:
+        th.join(120)
+    if errors:
+        raise ToolError("expiry e2e driver: " + "; ".join(errors)[:400])
+    tp = ctx.path("expiry_e2e.ndjson")
+    verdicts = 0
+    with open(tp, "w") as f:
+        for r in sorted(out):
+            for e in out[r]:
+                f.write(json.dumps(e, separators=(",", ":")) + "\n")
+    acc, fails = validate_and_report(ctx, "Expiry_Trace", "Expiry_Trace.cfg", tp, "expiry_e2e",
+                                     lambda ev, p, s: {"part": "expiry_e2e",
+                                                       "tracker": p[0].get("tracker") if p else None})
+    if not fails:
+        binding_selftest(ctx, "Expiry_Trace", "Expiry_Trace.cfg", tp, mutate_obs_absent, label="selftest_expiry_e2e")
+    ctx.coverage["expiry_on_running_trackers"] = {
+        "trackers": ["%s/%s" % (k, b or "-") for k, b, _ in jobs], "max_peer_age_s": MAX_AGE,
+        "observations": [[e["lo"], e["present"]] for e in out[min(out)] if e["ev"] == "obs"],
+        "rule": "announce A; observe at 3 s; re-announce A and announce B at 7 s; observe at 15.2 s (after A's first "
+                "deadline: only the refreshed one keeps it) and at 23.5 s (all gone); TLC decides from the "
+                "driver's measured send / receive times which peers must be present, must be absent, or may be either"}
 
 
 def run(ctx):
@@ -74,7 +248,9 @@ def run(ctx):
                 "offers (verif_dump) with the reference, so an entry removed one second early or kept one "
                 "second late is rejected at that step",
     })
+    e2e_expiry(ctx)
     ctx.assumptions += [
-        "UDP/HTTP deadlines are passed to the storage as ValidUntil values, WebTorrent reads the mock clock; "
-        "the socket/swarm workers' own time sampling (deadline = sample + max age) is outside the API level",
+        "at the API level UDP/HTTP deadlines are passed to the storage as ValidUntil values and WebTorrent reads the "
+        "mock clock; the socket/swarm workers' own time sampling and cleaning timers are covered by the end-to-end "
+        "expiry scenario only, with tolerances of 2.3 s (early) and 3.2 s (late) around each deadline",
     ]
